@@ -15,6 +15,10 @@ mod c12;
 mod c13;
 mod c14;
 mod c15;
+mod c16;
+mod c17;
+mod c18;
+mod c19;
 mod ctx;
 mod drv;
 mod gen;
@@ -48,6 +52,10 @@ fn dispatch_run(prop: &str, ctx: &mut Ctx) -> bool {
         "C13" => c13::run(ctx),
         "C14" => c14::run(ctx),
         "C15" => c15::run(ctx),
+        "C16" => c16::run(ctx),
+        "C17" => c17::run_all(ctx),
+        "C18" => c18::run(ctx),
+        "C19" => c19::run(ctx),
         _ => return false,
     }
     true
@@ -70,6 +78,10 @@ fn dispatch_replay(prop: &str, ctx: &mut Ctx, scenario: &Value) -> Result<(), St
         "C13" => c13::replay(ctx, scenario),
         "C14" => c14::replay(ctx, scenario),
         "C15" => c15::replay(ctx, scenario),
+        "C16" => c16::replay(ctx, scenario),
+        "C17" => c17::replay(ctx, scenario),
+        "C18" => c18::replay(ctx, scenario),
+        "C19" => c19::replay(ctx, scenario),
         _ => Err(format!("no replay for {prop}")),
     }
 }
